@@ -4,8 +4,8 @@ import json, os, sys
 V = os.path.dirname(os.path.dirname(os.path.abspath(__file__)))
 
 TRUST = ('Trusted base: cbmc 6.11 (C front end, goto-instrument --dfcc, SAT/SMT back ends); the mechanical C++->C lowering '
-         'rules in specs/<id>/spec.py (must-fire regex rules, re-applied to /repo on every run, cross-checked by a native '
-         'differential run of the real C++); library stubs with assumed contracts listed in evidence.assumptions.')
+         'rules in specs/<id>/spec.py (regex rules re-applied to /repo on every run; text no rule matches passes through verbatim and must compile as C; '
+         'cross-checked by native runs of the real C++); library stubs with assumed contracts listed in evidence.assumptions.')
 
 CLAIMED = {
     'C15': dict(
@@ -63,7 +63,8 @@ def main():
         engines=[dict(name='cbmc-contracts', path='/verif/engine', serves_properties=sorted(CLAIMED),
                       kind_free_text='extract + mechanically lower the real functions of /repo to C on every run, inject '
                                      'contracts/ghost code from /verif/specs, discharge with goto-instrument --dfcc + cbmc '
-                                     '(SAT, z3, cvc5); bounded cbmc harnesses and native replays supply counterexamples')],
+                                     '(SAT, cadical, z3, cvc5) - the Hoare loop rule is instantiated textually on the real loops; bounded cbmc harnesses and '
+                                     'native programs on the real C++ supply counterexamples and cover what no contract reaches')],
         checks=checks,
         notes='See DESIGN.md. Exit codes of ./check: 0 held, 1 VIOLATION, 2 undecided (extraction/tool failure).',
         not_applicable=na)
